@@ -22,6 +22,7 @@ type Obligation struct {
 	PC     []string
 	Goal   string
 	DeclText string
+	Axioms string
 	Clause *Clause
 	Inputs map[string]Val // parameter / pre-state names for model extraction
 	Note   string
@@ -67,6 +68,7 @@ type Exec struct {
 	maxPaths int
 	callCount map[string]int
 	binds map[string]Val
+	relyMode bool
 	curInline int
 	retHook func(s *State, res []Val)
 }
@@ -164,12 +166,32 @@ func (x *Exec) loadLoc(s *State, l *Loc) Val {
 		for i, lf := range ls {
 			v.L[i] = x.heapLoad(s, l.Path+lf.Suffix, lf.Sort, l.Base)
 		}
+		x.assumeRanges(s, v)
+		if ts, tn, field := x.classify(l.Path); ts != nil && ts.AtomicCell[field] && len(v.L) == 1 {
+			if s.cellOrigin == nil {
+				s.cellOrigin = map[string]string{}
+			}
+			s.cellOrigin[v.L[0]] = tn + "." + field
+		}
 		return v
 	case LocElem:
 		return Val{Typ: l.Typ, L: l.Elem}
 	}
 	unsupported("load from location kind %d", l.Kind)
 	return Val{}
+}
+
+// assumeRanges records the machine-type range of values read from typed memory.
+func (x *Exec) assumeRanges(s *State, v Val) {
+	for _, f := range typeRangeFacts(v) {
+		if s.ranged == nil {
+			s.ranged = map[string]bool{}
+		}
+		if !s.ranged[f] {
+			s.ranged[f] = true
+			s.pc = append(s.pc, f)
+		}
+	}
 }
 
 func parseRange(p string) (int, int) {
@@ -629,9 +651,19 @@ func (x *Exec) mapGet(s *State, mt *types.Map, m, k string) (Val, string) {
 	for _, lf := range leavesOf(mt.Elem()) {
 		asort := "(Array " + ksort + " " + lf.Sort + ")"
 		cur := x.heapLoad(s, mapPath(mt)+"#val"+lf.Suffix, asort, m)
-		v.L = append(v.L, sIte(in, "(select "+cur+" "+k+")", zeroOfSort(lf.Sort)))
+		v.L = append(v.L, x.nameTerm(s, sIte(in, "(select "+cur+" "+k+")", zeroOfSort(lf.Sort)), lf.Sort, "mapget"))
 	}
 	return v, in
+}
+
+// nameTerm binds a compound term to a fresh constant (let-naming keeps obligations small).
+func (x *Exec) nameTerm(s *State, term, sort, hint string) string {
+	if len(term) < 60 {
+		return term
+	}
+	n := x.D.fresh(hint, sort)
+	s.pc = append(s.pc, "(= "+n+" "+term+")")
+	return n
 }
 
 func (x *Exec) lookup(s *State, in *ssa.Lookup) {
@@ -822,9 +854,16 @@ func (x *Exec) storeArrElem(s *State, l *Loc, v Val) {
 }
 
 func (x *Exec) emitNilCheck(s *State, ref string, in ssa.Instruction) {
-	if x.isFresh(s, ref) {
+	if x.isFresh(s, ref) || s.nilChecked[ref] {
 		return
 	}
+	if this, ok := x.params["this"]; ok && len(this.L) == 1 && this.L[0] == ref {
+		return
+	}
+	if s.nilChecked == nil {
+		s.nilChecked = map[string]bool{}
+	}
+	s.nilChecked[ref] = true
 	x.emit(s, "safety", "nil_deref", x.spec.Safety, "(not (= "+ref+" 0))", nil)
 }
 
